@@ -281,10 +281,10 @@ func (s *BadgerStore) SetEvent(event *Event) error {
 		return err
 	}
 
-	// try to add it to the db
-	if s.maintenanceMode {
-		return nil
-	}
+	// Events are written to the db in maintenance mode too. While bootstrapping,
+	// an Event that was evicted from the cache is read back from the db; its
+	// coordinates must be the ones computed by the current replay, not the ones
+	// left by the previous run.
 	return s.dbSetEvents([]*Event{event})
 }
 
